@@ -32,7 +32,7 @@ CHECKS = {
              "on generated histories covering every regime of the quantifier (widths, state orders, payload sizes around 32 bytes, 65535-multiples, splits).",
         design_ref="DESIGN.md section 5 / C04",
         note="Proved end to end (C04_store_refines_spec, C04_store_refines_spec_all): for every signal type (vectors, one-bit signals, reals, strings) and both write paths (VCD tokens and pre-encoded GHW-style add_n_bit_change values), every history, every block size and every compression decision, the finished store has the time table of Spec.run and load_signal returns exactly Spec.run's change list "
-             "(simulation of the encoder incl. block roll-over against the specification, multi-block load, loader de-duplication = canon). Differential only: Encoder::append (the multi-threaded hand-over, see C03). "
+             "(simulation of the encoder incl. block roll-over against the specification, multi-block load, loader de-duplication = canon). Encoder::append is part of the theorem (Spec.runSegs: one encoder per segment between the split operations, appended in order; the driver's store model IS runSegs). "
              "lz4_flex is not modelled (compress = id in the model; the compression decision is an arbitrary predicate); the theorem assumes no block larger than 2^36 bytes (32-bit compressed-length field). Trusted: Lean kernel, table translator vf/tables.py, harness, generators.",
     ),
     "C02": dict(
